@@ -400,7 +400,10 @@ impl IdxScen {
                     out.fail = fail("cost-differs", step, format!("Σused = {used} but the documented rule gives {expected} bytes for {:?} (stride prefix {stride_prefix})", tail(&model)));
                     return out;
                 }
-                if expected == 0 && !ever_spilled && !ops[..=step].iter().any(|o| matches!(o, IOp::Reserve(_) | IOp::Restart)) {
+                // IndexList::reserve may allocate its u32 half; IndexOptimized must stay heap-free while
+                // nothing has spilled, whatever was reserved
+                let reserve_excuses = self.container == 2 && ops[..=step].iter().any(|o| matches!(o, IOp::Reserve(_)));
+                if expected == 0 && !ever_spilled && !reserve_excuses {
                     out.hit("zero_cost_state");
                     if cap != 0 || live != 0 {
                         out.fail = fail("heap-for-free-shape", step, format!("a free-shaped sequence {:?} reports capacity {cap} and holds {live} live bytes", tail(&model)));
@@ -475,12 +478,16 @@ impl IdxScen {
                             n += 1;
                         }
                         IOp::Extend(vs) => {
-                            for v in vs {
-                                s.copy($mk(*v));
-                                n += 1;
+                            // FlatStack::extend reserves index space up front
+                            let mut items = Vec::new();
+                            for x in vs.as_slice() {
+                                items.push($mk(*x));
                             }
+                            n += items.len();
+                            s.extend(items);
                         }
-                        IOp::Reserve(_) | IOp::Restart => {}
+                        IOp::Reserve(k) => s.reserve(*k),
+                        IOp::Restart => {}
                     });
                     if let Err(p) = r {
                         out.fail = fail("panicked", step, p.short());
@@ -587,7 +594,7 @@ impl Scenario for IdxScen {
                 2 => IOp::Val(*rng.pick(&[0usize, 1, 2, 3, u32::MAX as usize - 1, u32::MAX as usize, u32::MAX as usize + 1, 1 << 63, usize::MAX - 1, usize::MAX])),
                 3 => IOp::Val(rng.next() as usize >> rng.below(64)),
                 4 => match rng.below(10) {
-                    0 => IOp::Extend((0..rng.below(6)).map(|_| rng.below(4)).collect()),
+                    0 => IOp::Extend((0..rng.below(6)).map(|_| if rng.coin() { rng.below(4) } else { *rng.pick(&[u32::MAX as usize, u32::MAX as usize + 1, 1usize << 40, usize::MAX, 0, 7]) }).collect()),
                     1 => IOp::Reserve(rng.below(100)),
                     2 => IOp::Clear,
                     _ => IOp::Letter(rng.below(9) as u8),
